@@ -212,6 +212,17 @@ def oracle_idshape(s):
 # running cases
 # ---------------------------------------------------------------------------
 
+MSTATS = {}
+
+
+def note_mstat(stderr):
+    for ln in (stderr or '').splitlines():
+        if ln.startswith('MSTAT '):
+            for kv in ln.split()[1:]:
+                k, v = kv.split('=')
+                MSTATS[k] = MSTATS.get(k, 0) + int(v)
+
+
 def run_cases(exe, cases, shards=None):
     """cases: list of line lists. Returns list of output line lists, one per case."""
     shards = shards or int(vlib.NPROC)
@@ -230,6 +241,7 @@ def run_cases(exe, cases, shards=None):
             p = subprocess.run([exe, 'heap'], input=text, stdout=subprocess.PIPE, stderr=subprocess.PIPE,
                                universal_newlines=True, timeout=1800, errors='replace')
             out = heapgen.split_results(p.stdout)
+            note_mstat(p.stderr)
             if p.returncode != 0:
                 out.append(['<driver-failed rc=%d %s>' % (p.returncode, p.stderr[-300:].replace('\n', ' '))])
         except subprocess.TimeoutExpired:
@@ -314,7 +326,9 @@ def run(ctx, spec):
     corpus = load_corpus(prop)
     cases = corpus + spec.gen(ctx)
     impl = run_cases(admdrv, cases)
+    MSTATS.clear()
     model = run_cases(modeldrv, cases) if modeldrv else [None] * len(cases)
+    ctx.model_stats = dict(MSTATS)
     # a case is compared up to the first call the harness declines to make on libadm ("unsupported")
     for k in range(len(cases)):
         if 'unsupported' in impl[k]:
